@@ -322,6 +322,16 @@ func newDBWorld(root string, idx int, kek tink.AEAD) (*dbWorld, error) {
 	w := &dbWorld{dir: dir, path: filepath.Join(dir, "setec.db"), kek: kek}
 	w.sk = &sink{dbPath: w.path}
 	w.sk.observer = true
+	if idx%7 == 3 {
+		// the configured path is a symbolic link with a relative target (an operator's
+		// "database -> database.v1"), and the server's working directory is somewhere else:
+		// whatever is acknowledged must be what opening the configured path finds
+		real := filepath.Join(dir, "database.v1")
+		if d0, err := db.Open(real, kek, audit.New(w.sk)); err == nil {
+			_ = d0
+			os.Symlink("database.v1", w.path)
+		}
+	}
 	d, err := db.Open(w.path, kek, audit.New(w.sk))
 	if err != nil {
 		return nil, err
@@ -754,6 +764,14 @@ func traceDB(o opts) error {
 	kek, err := newKEK()
 	if err != nil {
 		return err
+	}
+	// the server's working directory is not the state directory (and relative paths that escape
+	// from the code under test land in the scratch area, not in the caller's directory)
+	if abs, err := filepath.Abs(o.dir); err == nil {
+		o.dir = abs
+	}
+	if cwd := filepath.Join(o.dir, "cwd"); os.MkdirAll(cwd, 0700) == nil {
+		os.Chdir(cwd)
 	}
 	for h := 0; h < o.n; h++ {
 		if o.only >= 0 && h != o.only {
